@@ -378,6 +378,13 @@ class Context:
                     )
                     del self._plugin_class_registry[d]
 
+        if not all(p.startswith(TEMP_DATA_TYPE_PREFIX) for p in plugin_class.provides):
+            # The cached plugin instances (and their lineages) were built from the
+            # previously registered classes; _context_hash cannot see a class
+            # change that keeps the version, so forget them.
+            self._fixed_plugin_cache = None
+            self._fixed_level_cache = None
+
         already_seen = []
         for plugin in self._plugin_class_registry.values():
             if plugin in already_seen:
